@@ -1448,6 +1448,80 @@ def r_recordorder(E):
     return res
 
 
+# ---------------------------------------------------------------------------------------------- R-SUMSTART
+_SS_POSITIVE = '''
+class Server:
+    def occupied(self, resource):
+        base = getattr(self, f"base_{resource}_consumption")
+        extra = [getattr(s, f"base_{resource}_consumption") for s in self.installed_services]
+        return sum(extra, start=base).set_label("occupied")
+    def update_total(self):
+        self.total = sum([j.need for j in self.jobs], self.base_need)
+'''
+_SS_NEGATIVE = '''
+class Server:
+    def occupied(self, resource):
+        base = getattr(self, f"base_{resource}_consumption")
+        extra = [getattr(s, f"base_{resource}_consumption") for s in self.installed_services]
+        return (base + sum(extra)).set_label("occupied")
+    def update_total(self):
+        self.total = sum([j.need for j in self.jobs], start=EmptyExplainableObject())
+    def names(self):
+        return sum([s.names for s in self.parts], start=[])
+'''
+
+
+def sums_started_from_model_values(tree):
+    """[(function, sum call, start text)]: `sum(xs, start=<a value read from the object: self.a, getattr(self, …), a local bound
+    to one>)`: with nothing to add the sum *is* that object — no new value is built, so what is labelled / assigned next is
+    the input itself"""
+    from ..astutil import fully_expanded
+    out = []
+    for fn in [f for f in ast.walk(tree) if isinstance(f, ast.FunctionDef)]:
+        for c in [x for x in ast.walk(fn) if isinstance(x, ast.Call) and isinstance(x.func, ast.Name) and x.func.id == "sum"]:
+            st = next((k.value for k in c.keywords if k.arg == "start"), c.args[1] if len(c.args) > 1 else None)
+            if st is None:
+                continue
+            e = fully_expanded(st, fn)
+            from_self = (isinstance(e, ast.Attribute) and isinstance(e.value, ast.Name) and e.value.id == "self") or (
+                isinstance(e, ast.Call) and isinstance(e.func, ast.Name) and e.func.id == "getattr" and e.args
+                and isinstance(e.args[0], ast.Name) and e.args[0].id == "self")
+            if from_self:
+                out.append((fn, c, norm(e)))
+    return out
+
+
+@rule("R-SUMSTART")
+def r_sumstart(E):
+    pm = E.pm
+    res = RuleResult("R-SUMSTART", "in model code a sum does not start from a value of the model (`sum(xs, start=self.base)`): "
+                                   "with nothing to add, the result is that very object — the calculated attribute then *is* the "
+                                   "input (relabelled, re-attached under another name), no formula is recorded and the next edit "
+                                   "of the input lands on the wrong attribute; the start is a fresh value (an empty one) or the "
+                                   "input is added with `+`")
+    for mod, (rel, tree, src) in sorted(pm.modules.items()):
+        res.instances += len([c for c in ast.walk(tree) if isinstance(c, ast.Call) and isinstance(c.func, ast.Name) and c.func.id == "sum"])
+        if not (rel.startswith("efootprint/core") or rel.startswith("efootprint/builders")):
+            continue
+        for fn, c, t in sums_started_from_model_values(tree):
+            pc = getattr(fn, "_parent", None)
+            q = f"{pc.name}.{fn.name}" if isinstance(pc, ast.ClassDef) else fn.name
+            res.findings.append(Finding(
+                "R-SUMSTART", f"{rel}:{q} :: sum started from {t[:50]}",
+                f"{q} computes `{norm(c)[:80]}`: when there is nothing to add, sum() returns its start — `{t[:50]}`, a value of "
+                f"the model — unchanged: the result is the input object itself, which is then labelled and attached as the "
+                f"calculated value (a server without installed service: `occupied_ram_per_instance` *is* `base_ram_consumption`)",
+                rel, c.lineno, q, {"clauses": _area(rel)}))
+    pos = sums_started_from_model_values(set_parents(ast.parse(_SS_POSITIVE)))
+    neg = sums_started_from_model_values(set_parents(ast.parse(_SS_NEGATIVE)))
+    if len(pos) != 2 or neg:
+        raise AnalysisError(f"R-SUMSTART: embedded examples: {len(pos)} of 2 positive recognised, {len(neg)} false reports")
+    res.instances += 2
+    res.samples = [{"embedded_positive_examples_recognised": 2, "embedded_twins_silent": True}]
+    res.floor = 20
+    return res
+
+
 # ---------------------------------------------------------------------------------------------- R-ORDEFAULT
 @rule("R-ORDEFAULT")
 def r_ordefault(E):
